@@ -21,6 +21,8 @@ Probes on a copy of the directory (state unchanged):
 * `crash <k> <muts|-> <j|-> <s> <e> | <op>` — `<op>` (`append …`, `pruneold n`, `prunerecent n`) dies at its `k`-th
   file-system effect (`k` ≥ number of effects: it completes), the image is mutated (torn tail: `trunc:<seg>:<n>`),
   optionally a recovery dies at its `j`-th effect, then `open(s,e)` answers
+* `reprobe <s> <e> <seg.seg…|->` — `open(s,e)` completes on the copy, the listed segments it unlinked come back (their
+  unlinks were not yet durable, the cut of the head was), `open(s,e)` again
 * `rbread <max_rollback_log_len> <s> <e>` — `Rollback::read`: `ok <id>:<number of priors>,…` | `err …`
 * `deltaenc <erase keys|-> <reinstate key:value|->` → `ok <len>:<fnv>`;  `deltadec <hex|->` → `ok <sorted priors>` | `err <kind>`
 
@@ -117,6 +119,9 @@ def applyMut (d : Dir) (m : String) : Option Dir :=
 
 def applyMuts (d : Dir) (s : String) : Option Dir :=
   if s == "-" then some d else (s.splitOn "+").foldlM applyMut d
+
+def parseNatListDot (s : String) : Option (List Nat) :=
+  if s == "-" then some [] else (s.splitOn ".").mapM String.toNat?
 
 def optNat (s : String) : Option (Option Nat) := if s == "-" then some none else s.toNat?.map some
 
@@ -230,6 +235,14 @@ def seglogStep (st : SegSt) (line : String) : SegSt × String :=
         | none => (st, "bad-op")
         | some img' => (st, (if r.effs.length ≤ k then s!"n={r.effs.length} " else "") ++ showORes (openAfterCrash st.maxSeg img' j s e) false)
     | _, _, _, _, _ => (st, "bad-op")
+  | ["reprobe", s, e, ids], none =>
+    -- recovery completes (its cut of the head is durable), but the unlinks of these segments are lost: they are back
+    match s.toNat?, e.toNat?, parseNatListDot ids with
+    | some s, some e, some ids =>
+      let r1 := openM st.maxSeg s e st.dir
+      let img := r1.dir ++ st.dir.filter (fun x => ids.contains x.1 && (lookup r1.dir x.1).isNone)
+      (st, showORes (openM st.maxSeg s e img))
+    | _, _, _ => (st, "bad-op")
   | ["rbread", ml, s, e], none =>
     match ml.toNat?, s.toNat?, e.toNat? with
     | some ml, some s, some e => (st, rbRead st.maxSeg ml s e st.dir)
